@@ -3596,17 +3596,13 @@ bn_mod_sqrt(bn_p bn, bn_p m, bn_mod_rd_data_p mod_rd_data) {
 		BN_RET_ON_ERR(bn_init(&tm, bits));
 		BN_RET_ON_ERR(bn_init(&b, bits));
 		BN_RET_ON_ERR(bn_init(&t, bits));
-		/* Select b random quadratic nonresidue. */
-		/* Initialize random algorithm. */
-		BN_RET_ON_ERR(bn_assign(&b, bn));
-		BN_RET_ON_ERR(bn_assign(&tm, m));
-		bits = bn_calc_bits(&b);
-		do {
-			bn_r_shift(&tm, 1);
-			BN_RET_ON_ERR(bn_xor(&b, &tm));
-		} while (-1 != bn_mod_legendre(&b, m, mod_rd_data) && 0 != --bits);
-		if (0 == bits)
-			return (-1);
+		/* Select b: the smallest quadratic nonresidue (it is tiny for a prime m). */
+		BN_RET_ON_ERR(bn_assign_digit(&b, 2));
+		while (-1 != bn_mod_legendre(&b, m, mod_rd_data)) {
+			bn_add_digit(&b, 1, NULL);
+			if (bn_cmp(&b, m) >= 0)
+				return (-1); /* m is not an odd prime. */
+		}
 		/* Find bits and t, such as (m - 1) = 2^bits*t, where t is odd */
 		BN_RET_ON_ERR(bn_assign_init(&tm2, m));
 		bn_sub_digit(&tm2, 1, NULL); /* tm2 = (m - 1) */
